@@ -5,7 +5,7 @@ import ast
 
 from ..program import AnalysisError, walk_local, dotted
 from ..analysis import Spec, src, class_const, const_value
-from ..rules import (GWF, EXC, mpt, need_func, stores_to, raise_class,
+from ..rules import (inside, before, GWF, EXC, mpt, need_func, stores_to, raise_class,
                      parent_map, kw, is_const, eval_atom, UNKNOWN,
                      explicit_exits)
 from . import common
@@ -227,7 +227,7 @@ def find_comment_rules(prog, an, rep):
     # what is returned in the two 'return' rows: the comment vs None
     rets = [n for n in c.nodes.values() if n.kind == 'return']
     in_loop = [r for r in rets
-               if loop.lineno <= r.lineno <= loop.end_lineno]
+               if inside(loop, r)]
     vals = sorted(src(r.ast.value) if r.ast.value is not None else 'None'
                   for r in in_loop)
     rep.check(vals == sorted(['None', cvar]), R, f.qname + ': returns the '
@@ -314,10 +314,10 @@ def commands_shielded(prog, an, rep):
                    src(_expand(f, loop, e.comparators[0]))}
             return txt == {cvar + '.author', job + '.settings.robot'}
         tests = [t for t in an.test_nodes(f, is_robot_test)
-                 if loop.lineno <= t.lineno <= loop.end_lineno]
+                 if inside(loop, t)]
         gates, stops = [], []
         for t in tests:
-            eq = isinstance(t.ast.ops[0], ast.Eq)
+            eq = isinstance(t.matched.ops[0], ast.Eq)
             gates += c.branch(t, not eq)
             stops += c.branch(t, eq)
         tnode = None
